@@ -293,6 +293,41 @@ def r6_table_positions_are_stream_positions(cx):
               "header.%s is the stream position taken immediately before the table is written (derives from %s)" % (name, sorted(callee_str(b.term(c)).split("::")[-1] for c in calls) + [str(x) for x in others]))
 
 
+def r9_at_least_one_worker(cx):
+    """'creation terminates': a compressed cluster is handed to the worker pool and the caller waits while the queue holds
+    `2 x workers` clusters; with no worker nothing ever leaves the queue (and `0 >= 0` holds from the start). The number of
+    workers given to the cluster writer therefore has a floor of one: it is `max(available parallelism, c) - d` with
+    `c - d >= 1`."""
+    F = cx.F
+    f = F.one(impl_self="ContentPackCreator", item="new_from_output_with_progress", closure=False)
+    b = F.body(f)
+    cw = b.calls(r"clusterwriter::ClusterWriterProxy::<.*>::new$")
+    if len(cw) != 1:
+        raise AnchorLost("new_from_output_with_progress: %d ClusterWriterProxy::new" % len(cw))
+    args = [a for a in cw[0][1]["args"] if op_place(a) is not None and (b.locals[op_place(a)["l"]].get("ty") or "") == "usize"]
+    if len(args) != 1:
+        raise AnchorLost("ClusterWriterProxy::new: %d usize arguments" % len(args))
+    o = b.origins(args[0])
+    floors = []
+    for x in o:
+        if x[0] == "call" and call_is(b.term(x[1]), r"cmp::max::<", r"cmp::Ord>::max$"):
+            cs = [op_const_deep(b, a) for a in b.term(x[1])["args"]]
+            floors += [c for c in cs if isinstance(c, int)]
+    subs = []
+    for blk in b.blocks:
+        if blk.get("cleanup"):
+            continue
+        for st in blk["s"]:
+            rv = st.get("rv") or {}
+            if st["k"] == "assign" and rv.get("k") == "bin" and rv["op"] in ("Sub", "SubWithOverflow", "SubUnchecked") and isinstance(op_const_deep(b, rv["b"]), int):
+                if any(x[0] == "call" and call_is(b.term(x[1]), r"cmp::max::<", r"cmp::Ord>::max$") for x in b.origins(rv["a"])):
+                    subs.append(op_const_deep(b, rv["b"]))
+    sat = sorted({callee_str(b.term(x[1])).split("::")[-1] for x in o if x[0] == "call" and call_is(b.term(x[1]), r"saturating_sub$", r"checked_sub$", r"wrapping_sub$")})
+    floor = (max(floors) - sum(subs)) if floors else None
+    cx.ob("R9", "R9/new_from_output_with_progress/at-least-one-worker", floor is not None and floor >= 1 and not sat, f,
+          "the number of compression workers is max(parallelism, %s) - %s: at least %s (other subtractions: %s)" % (floors, subs, floor, sat), ln=cw[0][1].get("ln"))
+
+
 def r8_address_slots_are_independent(cx):
     """the address table grows with `resize(idx + 1, Default::default())`, which *clones* one default slot into every new
     entry -- when a cluster arrives before lower-numbered ones, several slots are created at once. A slot owns its value
@@ -311,6 +346,7 @@ def r7_positions_on_the_buffered_stream(cx):
 
 
 RULES = [
+    ("R9", r9_at_least_one_worker, 1),
     ("R8", r8_address_slots_are_independent, 1),
     ("R7", r7_positions_on_the_buffered_stream, 1),
     ("R6", r6_table_positions_are_stream_positions, 2),
